@@ -24,6 +24,8 @@ POL = ["fifo", "lru", "lfu", "arc", "random", "tlru"]
 for kind, pre in (("sync", "s"), ("thread", "t"), ("async", "a")):
     row(pre + "_plain", kind)                                   # C03: nothing configured
     row(pre + "_plain_ret", kind, early_return=True)            # ... result produced by an explicit `return`
+    row(pre + "_plain_long", kind, sig="long")                  # ... with a key of more than 64 bytes
+    row(pre + "_lru2_long", kind, sig="long", limit=2, policy="lru")
     row(pre + "_res_ret", kind, ret="res", early_return=True, limit=2, policy="lru")
     for p in POL:
         row("%s_%s2" % (pre, p), kind, limit=2, policy=p)
@@ -44,6 +46,9 @@ for kind, pre in (("sync", "s"), ("thread", "t"), ("async", "a")):
     row(pre + "_res_lfu2", kind, ret="res", limit=2, policy="lfu")
     row(pre + "_res_std", kind, ret="res_std", limit=2, policy="fifo")
     row(pre + "_res_ttl2", kind, ret="res", limit=2, policy="lru", ttl=2)
+    # Result combined with invalidate_on (no cache_if): a refresh that fails must not be stored
+    row(pre + "_res_inv", kind, ret="res", inv=True)
+    row(pre + "_res_inv_lru2", kind, ret="res", inv=True, limit=2, policy="lru")
     row(pre + "_cif_ttl2", kind, cif=True, limit=2, policy="fifo", ttl=2)
     # cache_if
     row(pre + "_cif", kind, cif=True)
@@ -164,6 +169,8 @@ SIGS = {
     "zero": ("", "0", "", False, ""),
     "two": ("a: u32, b: String", "{ let _ = &b; a }", "", False, ""),
     "four": ("a: u32, b: bool, c: i64, d: String", "{ let _ = (b, c, &d); a }", "", False, ""),
+    # a key of more than 64 bytes (compaction / hashing / truncation of long keys)
+    "long": ("a: u32, b: String", "{ let _ = &b; a }", "", False, ""),
     "mref": ("&self, k: u32", "{ let _ = self.id; k }", "", True, ""),
     "mmut": ("&mut self", "self.id", "", True, ""),
     "mval": ("self, k: u32, s: &str", "{ let _ = (self.id, s); k }", "", True, ""),
@@ -171,10 +178,12 @@ SIGS = {
 CALLS = {
     "k": "{f}(k)", "zero": "{f}()", "two": "{f}(k, format!(\"s{{}}\", k))",
     "four": "{f}(k, k % 2 == 0, k as i64 + 100, format!(\"x|y{{}}\", k))",
+    "long": "{f}(k, format!(\"LLLLLLLLLLLLLLLLLLLLLLLLLLLLLLLLLLLLLLLLLLLLLLLLLLLLLLLLLLLLLLLLLLLLLL{{}}\", k))",
     "mref": "Obj {{ id: 7 }}.{f}(k)", "mmut": "Obj {{ id: k }}.{f}()", "mval": "Obj {{ id: 7 }}.{f}(k, \"z\")",
 }
 KEYFMT = {
     "k": "{k}", "zero": "", "two": "{k}|\"s{k}\"", "four": "{k}|{e}|{n}|\"x|y{k}\"",
+    "long": "{k}|\"LLLLLLLLLLLLLLLLLLLLLLLLLLLLLLLLLLLLLLLLLLLLLLLLLLLLLLLLLLLLLLLLLLLLLL{k}\"",
     "mref": "Obj { id: 7 }|{k}", "mmut": "Obj { id: {k} }", "mval": "Obj { id: 7 }|{k}|\"z\"",
 }
 
